@@ -1,8 +1,10 @@
 package loadbalancer
 
 import (
+	"context"
 	"errors"
 	"net/http"
+	"net/url"
 	"strconv"
 	"time"
 
@@ -12,6 +14,19 @@ import (
 )
 
 var verifProbeErr = errors.New("verif: probe could not connect")
+
+// verifProbeFailure: the ways a probe fails to produce a response, as the probe's
+// http.Client reports them: connection refused, and the probe's own timeout
+// (health_checks.active.timeout), which wraps context.DeadlineExceeded.
+func verifProbeFailure() error {
+	switch verifrt.Choice("probeError", 3) {
+	case 0:
+		return verifProbeErr
+	case 1:
+		return &url.Error{Op: "Get", URL: "http://127.0.0.1:8081/health", Err: context.DeadlineExceeded}
+	}
+	return &url.Error{Op: "Get", URL: "http://127.0.0.1:8081/health", Err: verifProbeErr}
+}
 
 // VerifC04History drives one backend through every history of <= k events
 //
@@ -96,7 +111,7 @@ func VerifC04History(strategy int, k int) {
 			if verifrt.Bool("probeNon200") {
 				lb.processHealthCheckResponse(b, &http.Response{StatusCode: 503})
 			} else {
-				lb.handleHealthCheckFailure(b, verifProbeErr)
+				lb.handleHealthCheckFailure(b, verifProbeFailure())
 			}
 			verifrt.Assert(!b.IsHealthy && b.UnhealthyUntil.Equal(verifrt.Now().Add(time.Duration(win))), "a failed probe ejects the backend for the configured window")
 			// (the passive failure tally is not reset by a probe ejection: those failed responses did occur)
